@@ -257,7 +257,14 @@ class CounterToken(Token, FileSystemEventHandler):
         for path in self.path.glob("*.token"):
             tf = old_cache.get(path.name)
             if tf is None:
-                tf = TokenFile(path)
+                try:
+                    tf = TokenFile(path)
+                except ValueError:
+                    # We hold the IPC lock, so nobody is writing this file: it
+                    # was left half-written by a process that died
+                    logging.warning("Removing invalid token file %s", path)
+                    path.unlink()
+                    continue
                 tf.watch()
                 logging.debug("Read token file %s (%d)", path, tf.count)
             else:
@@ -322,6 +329,9 @@ class CounterToken(Token, FileSystemEventHandler):
         except FileNotFoundError:
             # We did not find the token file... just ignore
             pass
+        except ValueError:
+            # The token file is being written (a modified event will follow)
+            pass
         except Exception:
             logger.exception("Uncaught exception in on_modified handler")
             if _verif.ACTIVE:
@@ -375,6 +385,9 @@ class CounterToken(Token, FileSystemEventHandler):
                                 _verif.emit("tok.evt.cached", name=path.name, by="modified")
                         except FileNotFoundError:
                             # Well, the file did not exist anymore...
+                            pass
+                        except ValueError:
+                            # The token file is still being written
                             pass
         except Exception:
             logger.exception("Uncaught exception in on_modified handler")
